@@ -29,8 +29,64 @@ ASSUMPTIONS = [
 REQUIRED_PROBES = ["saved_after_setup_on_aware_grid", "saved_chp_after_setup", "aware_own_grid_reloaded_with_naive_interval_data",
                    "ndarray_datetime64_in_dict", "datetimeindex_in_dict", "structured_inside_structured", "scaled_asset_saved",
                    "linked_asset_saved", "unacked_save_then_load", "crash_then_restart_load", "run_from_json_with_other_grid",
-                   "grid_zone_only_through_dates", "chp_no_heat_flag"]
+                   "grid_zone_only_through_dates", "chp_no_heat_flag", "attribute_assigned_before_save"]
 SHRINK_KEYS = ["steps"]
+
+SET_ATTRS = ["wacc", "time_already_running", "asset2_time_already_running", "fix_costs", "costs_const", "cost_in", "cost_out",
+             "cost_store", "efficiency", "time_back", "time_forward", "last_dispatch", "time_already_running", "asset2_time_already_running"]
+
+
+def flat_assets(obj):
+    """All asset objects reachable from a live portfolio / asset (wrappers, what they wrap, linked assets)."""
+    out, seen = [], set()
+
+    def walk(o):
+        if id(o) in seen:
+            return
+        seen.add(id(o))
+        if hasattr(o, "assets") and not hasattr(o, "nodes_"):  # Portfolio
+            for a in o.assets:
+                walk(a)
+            return
+        out.append(o)
+        for k in ("base_asset", "asset1", "asset2"):
+            if hasattr(o, k):
+                walk(getattr(o, k))
+        if hasattr(o, "portfolio"):
+            walk(o.portfolio)
+    walk(obj)
+    return out
+
+
+def apply_set_attr(obj, idx, attr, cls=None):
+    """Assign a new, still valid value to one numeric attribute; returns a description or None (no-op)."""
+    fl = flat_assets(obj)
+    if cls:
+        fl = [a for a in fl if type(a).__name__ == cls and hasattr(a, attr)]
+    if not fl:
+        return None
+    a = fl[idx % len(fl)]
+    v = getattr(a, attr, None)
+    if isinstance(v, bool) or not isinstance(v, (int, float)):
+        return None
+    if attr == "wacc":
+        new = 0.07 if v != 0.07 else 0.03
+    elif attr == "time_already_running":
+        if getattr(a, "time_already_off", 0) != 0:
+            return None
+        new = v + 1
+    elif attr in ("asset2_time_already_running", "time_back", "time_forward"):
+        new = v + 1
+    elif attr == "efficiency":
+        new = 0.85 if v != 0.85 else 0.95
+    elif attr == "last_dispatch":
+        new = v
+        return None if v == 0 else None
+    else:
+        new = round(v + 0.5, 3)
+    setattr(a, attr, new)
+    return "%s.%s=%r" % (type(a).__name__, attr, new)
+
 
 # --------------------------------------------------------------------------- generation
 
@@ -60,6 +116,11 @@ def gen_plan(rng, run_index, tier, opts):
         sa1, _ = specs.gen_structured(env, inner, [n])
         sa2, _ = specs.gen_structured(env, [sa1, specs.gen_simple_contract(env, n, f0, rich=False)], [n])
         w["portfolios"][P]["assets"].append(sa2)
+    if mip and rng.random() < 0.3:
+        nodes_ = sorted({n for a in w["portfolios"][P]["assets"] for n in specs.asset_nodes(w, a)})
+        if len(nodes_) >= 2:
+            la, _ = specs.gen_linked(env, nodes_[0], nodes_[1], f0)
+            w["portfolios"][P]["assets"].append(la)
     own_grid = rng.random() < 0.6
     if own_grid:
         w["portfolios"][P]["grid"] = g0
@@ -75,17 +136,32 @@ def gen_plan(rng, run_index, tier, opts):
     world = specs.clean_world(w)
     steps = []
     n_gen = rng.choice([1, 1, 2, 3])
+    sub_cls = {w["assets"][a]["cls"] for a in specs.referenced_ids(w, target) if a[0] == "a"}
+    targeted = []
+    if "LinkedAsset" in sub_cls:
+        targeted += [{"cls": "LinkedAsset", "attr": "asset2_time_already_running"}, {"cls": "CHPAsset", "attr": "time_already_running"},
+                     {"cls": "LinkedAsset", "attr": "time_back"}]
+    if sub_cls & {"CHPAsset", "Plant", "CHPAsset_with_min_load_costs"}:
+        targeted += [{"cls": c_, "attr": "time_already_running"} for c_ in sorted(sub_cls & {"CHPAsset", "Plant", "CHPAsset_with_min_load_costs"})]
+    if "ScaledAsset" in sub_cls:
+        targeted += [{"cls": "ScaledAsset", "attr": "fix_costs"}]
     have_file = False
     for gen in range(n_gen):
         for _ in range(rng.choice([0, 0, 1, 2, 3])):
             g = rng.choice(probes[:2])
             r = rng.random()
-            if r < 0.7:
+            if r < 0.6:
                 steps.append({"op": "hist", "call": "setup", "grid": g, "prices": prices[g]})
-            elif r < 0.85:
+            elif r < 0.72:
                 steps.append({"op": "hist", "call": "set_timegrid", "grid": g})
-            else:
+            elif r < 0.82:
                 steps.append({"op": "hist", "call": "to_json"})
+            else:
+                # the user updates a parameter by assignment (rolling runs update running times, levels, costs ...)
+                st_ = {"op": "hist", "call": "set_attr", "idx": rng.randrange(12), "attr": rng.choice(SET_ATTRS)}
+                if targeted and rng.random() < 0.6:
+                    st_.update(rng.choice(targeted))
+                steps.append(st_)
         path = rng.choice(["string", "file", "file"])
         st = {"op": "save", "path": path}
         if path == "file":
@@ -296,6 +372,11 @@ class Run:
                 elif st["call"] == "set_timegrid":
                     self.live_grid = st["grid"]
                     self.live.set_timegrid(self.B.grid(st["grid"]))
+                elif st["call"] == "set_attr":
+                    d_ = apply_set_attr(self.live, st["idx"], st["attr"], st.get("cls"))
+                    out = "set:%s" % d_
+                    if d_:
+                        self.probes["attribute_assigned_before_save"] = self.probes.get("attribute_assigned_before_save", 0) + 1
                 else:
                     eao.serialization.to_json(self.live)
             except Exception as e:
